@@ -1,6 +1,7 @@
 package raft
 
 import (
+	"encoding/json";
 	"fmt";
 	"errors";
 	"io";
@@ -22,6 +23,35 @@ func NewNodesManager(clusterConn *cluster.Conn, zeroGroup *RaftGroup) *NodesMana
 		clusterConn: clusterConn,
 		zeroGroup: zeroGroup,
 	}
+}
+
+// Makes the address book part of the group's snapshots. Without it a member that
+// restarts after the membership entries were compacted forgets its peers' addresses.
+func (this *NodesManager) RegisterSnapshot(group Group) error {
+	if err := group.RegisterProcessSnapshotFn(this.processSnapshot); err != nil {
+		return err
+	}
+	return group.RegisterSnapshotFn(this.snapshot)
+}
+
+func (this *NodesManager) snapshot() ([]byte, error) {
+	return json.Marshal(this.clusterConn.Nodes())
+}
+
+func (this *NodesManager) processSnapshot(data []byte) error {
+	nodes := make(map[uint64]string)
+	if err := json.Unmarshal(data, &nodes); err != nil {
+		return err
+	}
+	for id, _ := range this.clusterConn.Nodes() {
+		if _, exists := nodes[id]; !exists && id != this.clusterConn.Id() {
+			this.clusterConn.RemoveNode(id)
+		}
+	}
+	for id, address := range nodes {
+		this.clusterConn.AddNode(id, address)
+	}
+	return nil
 }
 
 func (this *NodesManager) Join(ctx context.Context, addresses []string) error {
